@@ -1131,6 +1131,8 @@ func (fe *FuncEnc) callIsHeapNeutral(c ssa.CallInstruction) bool {
 	return false
 }
 
+var _ = types.Typ
+
 func (fe *FuncEnc) callWrites(c ssa.CallInstruction) []string {
 	cc := c.Common()
 	if b, ok := cc.Value.(*ssa.Builtin); ok {
